@@ -518,6 +518,17 @@ class BaseCurve(Intface_BaseCurve):
         newknotvector = KnotVector(newknotvector)
         if newknotvector == self.knotvector:
             return
+        if self.ctrlpoints is None and self.weights is not None:
+            # Only the weight function is there: it follows the knotvector
+            weightfunc = self.__class__(self.knotvector, self.weights)
+            weightfunc.update(newknotvector, tolerance, nodes)
+            newweights = weightfunc.ctrlpoints
+            roots = heavy.find_roots(tuple(newknotvector), newweights)
+            if roots:
+                raise ValueError(f"Zero division at nodes {roots}")
+            self.__knotvector = newknotvector
+            self.__weights = tuple(newweights)
+            return
         if self.ctrlpoints is None:
             self.__knotvector = newknotvector
             return
@@ -920,7 +931,7 @@ class Curve(BaseCurve):
         """
         self.degree_clean(tolerance=tolerance)
         self.knot_clean(tolerance=tolerance)
-        if self.weights is None:
+        if self.weights is None or self.ctrlpoints is None:
             return
         # Try to reduce to spline
         knotvector = tuple(self.knotvector)
